@@ -55,6 +55,9 @@ CONSTANTS
   Indents,       \* indent widths
   Breaks,        \* subset of {"LF","CRLF","CR"}
   DocFlags,      \* doc-level flags allowed to be 1: subset of {"ds","de","zi","cmp","fsp"}
+  Avoid,         \* known loader / validator defects (known_findings.d/C14.json, C18.json) whose
+                 \* trigger is NOT generated, so that larger random documents are not all masked
+                 \* by them: subset of {"K1","K2","V1"}; {} in the exhaustive small-scope runs
   Sim            \* TRUE under -simulate: every choice inside an action is drawn at random
                  \* (one successor per action kind), so random walks are cheap and the tree
                  \* shape is not dominated by the many scalar alternatives
@@ -215,6 +218,22 @@ Used == Len(nodes) + (IF docs = <<>> THEN 0 ELSE docs[Len(docs)].used)
 
 AfterKeep == nodes # <<>> /\ nodes[Len(nodes)].st \in {"lit", "fold"} /\ nodes[Len(nodes)].ch = "+"
 
+\* K1: a root block scalar whose header line carries a comment or an anchor
+\* K2: in a root-level block mapping, an entry with an empty value followed by a quoted key
+AfterEmptyTop == /\ stack = <<1>> /\ nodes[1].st = "block" /\ nodes # <<>>
+                 /\ LET l == nodes[Len(nodes)]
+                    IN l.p = 1 /\ l.k = "str" /\ l.st = "plain" /\ PAL[l.t].s = <<>> /\ l.an = 0
+
+\* V1: a compact collection in a sequence (`- k: ...` / `- - ...`) one of whose entries other than
+\* the last has a block collection as its value (a later entry then dedents to a column no line
+\* started at)
+CompactDedent(ns) ==
+  \E c \in 1..Len(ns) :
+    /\ ns[c].k \in {"map", "seq"} /\ ns[c].st = "block" /\ ns[c].r = "item" /\ ns[c].an = 0 /\ ns[c].cm = 0
+    /\ LET kids == KidsOf(ns, c)
+           vals == IF ns[c].k = "seq" THEN kids ELSE [j \in 1..(Len(kids) \div 2) |-> kids[2 * j]]
+       IN \E j \in 1..(Len(vals) - 1) : ns[vals[j]].k \in {"map", "seq"} /\ ns[vals[j]].st = "block"
+
 Cms(isBlockColl) == IF InFlow \/ Role = "key" \/ (Role = "root" /\ isBlockColl) THEN {0} ELSE {0, 1, 2}
 Pres == IF InFlow \/ Role \notin {"key", "item"} THEN {0}
         ELSE IF AfterKeep THEN {0, 2, 3} ELSE {0, 1, 2, 3}
@@ -251,9 +270,12 @@ AddScalar ==
         \E an \in Pick(B({0, 1})), vr \in Pick(IF st \in {"double", "fold"} THEN B({0, 1}) ELSE {0}),
            cm \in Pick(cms), pre \in Pick(pres) :
           /\ Cost(an, cm, pre, vr) <= Budget
-          \* documented loader limitation (limitations.md, KeyWithoutValue `b #c: d`): a root
-          \* plain scalar followed by a comment that contains `: ` is not generated
-          /\ (role = "root" /\ st = "plain" => cm # 2)
+          \* documented loader limitation (limitations.md, KeyWithoutValue `b #c: d`): a plain or
+          \* block scalar (or alias) that starts a line's content - document root or sequence item -
+          \* followed by a comment that contains `: ` is not generated
+          /\ (role \in {"root", "item"} /\ st \in {"plain", "lit", "fold"} => cm # 2)
+          /\ ("K1" \in Avoid /\ role = "root" /\ st \in {"lit", "fold"} => cm = 0 /\ an = 0)
+          /\ ("K2" \in Avoid /\ role = "key" /\ st \in {"single", "double"} => ~AfterEmptyTop)
           /\ dec' = dec + Cost(an, cm, pre, vr)
           /\ \E ch \in Pick(IF st \in {"lit", "fold"} THEN ChompT[t] ELSE {""}) :
                Push(Node("str", par, role, t, st, ch, vr, an, 0, cm, pre), FALSE)
@@ -266,6 +288,7 @@ AddAlias ==
   /\ \E tg \in Pick({x \in 1..Len(nodes) : nodes[x].an = 1 /\ \A k \in 1..Len(stack) : stack[k] # x}) :
      \E cm \in Pick(Cms(FALSE)), pre \in Pick(Pres) :
        /\ 1 + Cost(0, cm, pre, 0) <= Budget
+       /\ (Role = "item" => cm # 2)      \* same documented limitation as for plain scalars
        /\ dec' = dec + 1 + Cost(0, cm, pre, 0)
        /\ Push(Node("alias", Par, Role, 0, "alias", "", 0, 0, tg, cm, pre), FALSE)
 
@@ -299,6 +322,7 @@ EndDoc ==
         zi \in Pick(Flag("zi")), cmp \in Pick(Flag("cmp")), fsp \in Pick(Flag("fsp")) :
        LET cost == (IF docs # <<>> THEN 0 ELSE ds) + de + zi + cmp + fsp + (IF w = MinIndent THEN 0 ELSE 1)
        IN /\ cost <= Budget
+          /\ ("V1" \in Avoid /\ cmp = 1 => ~CompactDedent(nodes))
           /\ dec' = dec + cost
           /\ docs' = Append(docs, [nodes |-> nodes, used |-> Used,
                                    o |-> [ds |-> ds, de |-> de, w |-> w, zi |-> zi, cmp |-> cmp, fsp |-> fsp]])
